@@ -90,6 +90,18 @@ def gen_case(rng, tier):
         first, second = "calc", "proj"
     elif kind == "any/any":
         first, second = rng.choice(["calc", "sel", "sort", "slice", "dedup", "proj"]), rng.choice(["calc", "sel", "sort", "slice", "dedup", "proj"])
+    if kind == "sel/sel" and engine == "it" and cols and rng.random() < 0.3:
+        # a guarded conjunction (the 2nd conjunct raises ZeroDivisionError on rows the guard
+        # removes) followed by a selection that repeats the guard: the merged selection must
+        # still evaluate the guard first (the iteration engine short-circuits AND in order)
+        d = rng.choice(sorted(cols))
+        guard = ["cmp", "ne", ["ref", d], ["lit", 0]]
+        risky = ["cmp", rng.choice(["gt", "le"]), ["fdiv", ["lit", rng.choice([6, -7, 12])], ["ref", d]], ["lit", rng.randint(-2, 2)]]
+        p1 = ["and", [guard, risky], rng.choice(["ctor", "factory"])]
+        p2 = rng.choice([guard, ["and", [guard, ["cmp", "ge", ["ref", d], ["lit", -9]]], "ctor"], ["and", [["cmp", "ge", ["ref", d], ["lit", -9]], guard], "ctor"]])
+        s1 = (["sel", prog, p1, None], cols, eng)
+        s2 = (["sel", s1[0], p2, None], cols, eng)
+        return {"leaves": g.leaves, "prog": s2[0], "first": s1[0], "engine": engine, "pair": "sel/sel-guarded"}
     if kind == "noop":
         s1 = state
         which = rng.choice(["slice", "sort", "proj", "sel"])
